@@ -193,7 +193,7 @@ impl Property for C15 {
             FamId::Libsecp => transitivity::<secp256k1::SecretKey>(&v)?,
             FamId::Ed => transitivity::<ed25519_dalek::SigningKey>(&v)?,
             FamId::CombinedSecp | FamId::CombinedEd => transitivity::<enr::CombinedKey>(&v)?,
-            FamId::Var => transitivity::<crate::keys::VarKey>(&v)?,
+            FamId::Var | FamId::Wide => transitivity::<crate::keys::VarKey>(&v)?,
         }
         let nt = v.nontrivial;
         drop(v);
